@@ -199,6 +199,14 @@ def run_manager(sysm, ops, scale, out, align=None):
         else:
             if os.path.exists(out):
                 os.remove(out)
+            if (len(ev) + len(sysm.mols)) % 3 == 0 and os.path.exists('/dev/full'):
+                # an earlier attempt whose output device is full (every write to /dev/full fails with ENOSPC): however
+                # it ends, the next extrapolation of the same manager writes the file the specification describes
+                try:
+                    with contextlib.redirect_stdout(io.StringIO()):
+                        man.extrapolate_system('/dev/full')
+                except Exception:
+                    pass
             try:
                 with contextlib.redirect_stdout(io.StringIO()):
                     man.extrapolate_system(out)
